@@ -122,8 +122,10 @@ def run(ctx):
                                  "zero_inplane_field": 0, "one_inplane_component_zero": 0, "psin_exactly_1_inside_polygon": 0}
     profile_kinds = {}
     n_search = n_errors = n_radius_split = set_index = 0
-    array_shapes, rejection_outcomes, edge_outcomes = {}, {}, {}
-    audit_counts = {"history_re_evaluations": 0, "direct_helper_class_comparisons": 0, "attribute_comparisons": 0}
+    array_shapes, rejection_outcomes, edge_outcomes, zero_combos, zero_forms = {}, {}, {}, {}, {}
+    zero_points = {"toroidal": 0, "poloidal": 0, "normal": 0}
+    audit_counts = {"history_re_evaluations": 0, "direct_helper_class_comparisons": 0, "attribute_comparisons": 0,
+                    "unit_basis_vector_comparisons": 0}
     for E in eqs:
         n_pts = n_pts_bundled if E.params is None else n_pts_syn
         pts = H.sample_points(E, rng, n_pts)
@@ -142,6 +144,12 @@ def run(ctx):
                 continue
             sets.append(ps)
             built.append(fns)
+            zk = "toroidal %(toroidal)s / poloidal %(poloidal)s / normal %(normal)s" % ps.zero_modes
+            zero_combos[zk] = zero_combos.get(zk, 0) + 1
+            for pr in (ps.vt, ps.vp, ps.vn):
+                if pr.zero_mode == "zero":
+                    zero_forms[pr.desc["kind"] if pr.kind != "array" else "2xN array of zeros"] = zero_forms.get(
+                        pr.desc["kind"] if pr.kind != "array" else "2xN array of zeros", 0) + 1
             for role, pr in (("map2d/map3d", ps.scalar), ("map_vector", ps.vt), ("map_vector", ps.vp), ("map_vector", ps.vn)):
                 profile_kinds[pr.kind] = profile_kinds.get(pr.kind, 0) + 1
                 if pr.kind == "array":
@@ -202,6 +210,9 @@ def run(ctx):
             cases.append(case_text(E, PS, o))
             meta.append(dict(info, outputs=o))
             evaluated.append((x, y, z, k, o))
+            if o["inside"]:
+                for nm, val in (("toroidal", o["vt"]), ("poloidal", o["vp"]), ("normal", o["vn"])):
+                    zero_points[nm] += (val == 0.0)
             if o["skip"]:
                 # the two mappers chose different radii: second case through the vector mapper's radius
                 n_radius_split += 1
@@ -227,6 +238,10 @@ def run(ctx):
         hf, hn = H.history_failures(E, sets, built, evaluated, rng, E.rebuild, n=10 if quick else 20)
         df, dn = H.direct_class_failures(E, sets, built, evaluated, rng, n=6 if quick else 20)
         af, an = H.attribute_failures(E, rng)
+        uf, un = H.unit_basis_failures(E, evaluated, rng, n=4 if quick else 12)
+        audit_counts["unit_basis_vector_comparisons"] += un
+        for f in uf:
+            fails.append(f)
         audit_counts["history_re_evaluations"] += hn
         audit_counts["direct_helper_class_comparisons"] += dn
         audit_counts["attribute_comparisons"] += an
@@ -320,8 +335,9 @@ def run(ctx):
     # ---- failing-input search results --------------------------------------------------------------
     ctx.obligation("executable property on the implementation (%d points, %d equilibria)" % (n_search, len(eqs)), "search",
                    not fails, str(fails[:2])[:1500])
-    for f in extreme:
-        ctx.violation("c12:extreme-psi-scale", f["clause"], f, found=True)
+    if extreme:
+        ctx.violation("c12:extreme-psi-scale", "basis vectors are zero / raise for a flux map of extreme magnitude (2^520, 2^-540): "
+                      "b_r^2 + b_z^2 over/underflows", {"failures": extreme}, found=True)
     seen = set()
     for f in fails:
         key = "c12:" + f["clause"][:60]
@@ -357,7 +373,9 @@ def run(ctx):
                          "point_classes": classes, "lcfs_classes": stage_inputs, "profile_kinds": profile_kinds, "array_profile_shapes(entry point, N, container, flavour)": array_shapes,
                          "invalid_profile_arrays(expected outcome and observed per entry point)": rejection_outcomes,
                          "one_ulp_outside_domain(outcomes)": edge_outcomes, "x_points_strike_points_validation": ctor,
-                         "audit_counts": audit_counts, "extreme_psi_scale_failures": len(extreme),
+                         "audit_counts": audit_counts, "velocity_zero_mode_combinations(profile sets)": zero_combos,
+                         "identically_zero_velocity_profile_forms": zero_forms,
+                         "inside_points_with_prescribed_speed_exactly_0": zero_points, "extreme_psi_scale_failures": len(extreme),
                          "grid_sizes": sorted({(len(E.r), len(E.z)) for E in eqs}), "polygon_sizes": sorted({int(E.poly.shape[0]) for E in eqs}),
                          "psi_scale_exponents": sorted({E.params.get("psi_scale_exp", 0) for E in eqs if E.params}),
                          "length_scale_exponents": sorted({E.params.get("length_scale_exp", 0) for E in eqs if E.params}),
